@@ -264,3 +264,14 @@ package rsm
 //@ ensures result1 == (forall j int :: 0 <= j && j < len(entries) ==> isNoOPSess(entries[j]))
 //@ loop 1 invariant allUpdate == (forall j int :: 0 <= j && j <= $i ==> isUpd(entries[j]))
 //@ loop 1 invariant allNoOP == (forall j int :: 0 <= j && j <= $i ==> isNoOPSess(entries[j]))
+
+// ---------------------------------------------------------------- snapshot stream validator (used by the chunk receiver; C15 treats it as opaque)
+//@ func NewSnapshotValidator [C15]
+//@ trusted opaque for C15 (hashing / header parsing are outside the subset)
+//@ ensures result != nil && fresh(result)
+
+//@ func (v *SnapshotValidator) AddChunk [C15]
+//@ trusted opaque for C15 (hashing / header parsing are outside the subset); only the validator's own state changes
+
+//@ func (v *SnapshotValidator) Validate [C15]
+//@ trusted opaque for C15
